@@ -460,6 +460,19 @@ def decide_derive_leg(pid, leg, seed, log):
             'canary': {'skipped': 'the generated functions have no preconditions', 'vacuous': []}}
 
 
+_skeletons = None
+
+
+def load_skeletons():
+    global _skeletons
+    if _skeletons is None:
+        try:
+            _skeletons = json.load(open(os.path.join(ROOT, 'contracts', 'skeletons.json')))['units']
+        except Exception:
+            _skeletons = {}
+    return _skeletons
+
+
 def load_known():
     p = os.path.join(ROOT, 'known_findings.json')
     if not os.path.exists(p):
@@ -529,6 +542,14 @@ def decide_verus_leg(pid, leg, tier, seed, log):
         unstable = [k for k, v in confirm.items() if not all(v)]
         if unstable:
             raise Undecided('unstable proof (fails under seed 0, passes under another seed): %s' % ', '.join(unstable))
+    # 3.2b: a refutation for which no failing input is found on the real code is reported only in functions whose control-flow / call skeleton still equals the
+    # baseline recorded on the unchanged tree (contracts/skeletons.json): the change is then confined to expressions and the proof text still describes the code.
+    # A restructured function (extracted helper, early return, reordered or added statements) whose proof fails is undecided - the proof may simply no longer fit.
+    base_sk = load_skeletons().get(leg['unit'], {})
+    cur_sk = {f['name']: f.get('skeleton', 'generated') for f in u.meta['functions']}
+    restructured = sorted({f['fn'] for f in refuted + other_refuted if f['fn'] and cur_sk.get(f['fn']) != base_sk.get(f['fn'])})
+    for f in refuted + other_refuted:
+        f['trusted_without_witness'] = f['fn'] not in restructured
     lost_hints = None
     if u.meta['warnings'] and refuted:
         # the proof text no longer matches the code: the refutation alone is not trusted.  It is reported only if the replay runner
@@ -737,6 +758,17 @@ def main():
             doc['note'] += '; witness = the failing case of the bounded stand-in %s (an execution of the real code)' % bad_bounded[0]['name']
             json.dump(doc, open(path, 'w'), indent=1)
             wit = doc['witness']
+        if not wit:
+            # without a replayed failing input only refutations in functions with an unchanged skeleton (and Kani / derive results, which are about real or generated code) are reported
+            trusted = [f for f in new if f.get('trusted_without_witness', True)]
+            if not trusted:
+                fns = sorted({f['fn'] for f in new if f['fn']})
+                msg = 'obligations are refuted in %s, whose control-flow / call structure differs from the baseline the proof text was written for, and no failing input was found on the real code: the proof no longer fits the code (undecided, not an alarm)' % ', '.join(fns[:6])
+                for f in new[:6]:
+                    print('unproved obligation %s :: %s' % (f['full'], f['detail']['message']))
+                print('UNDECIDED property=%s: %s' % (pid, msg))
+                write_evidence(pid, a.tier, seed, t0, [], notes, undecided=msg)
+                return 2
         lost = [i['lost_hints'] for i in legs if i.get('lost_hints') and any(f in i['refuted'] for f in new)]
         if lost and not wit:
             print('UNDECIDED property=%s: %s; no failing input was found on the real code either' % (pid, lost[0]))
@@ -868,10 +900,8 @@ def witness_search(pid, new, tier, seed, replay_path):
     cmds = []
     if want_book:
         cmd = [b, 'search', '--prop', pid, '--depth', str(depth), '--seed', str(seed), '--random', str(nrand), '--len', '60', '--budget', str(budget), '--out', out]
-        if pid == 'C05':
-            cmd.append('--ties')
-        if pid == 'C12':
-            cmd.append('--offgrid')
+        # never --ties / --offgrid (and never step overrun in the environment search): inputs from the domains of the recorded known findings would
+        # 'witness' those findings, not the refutation at hand; the findings are re-confirmed separately from findings/*.json
         cmds.append(cmd)
     if want_env:
         cmds.append([b, 'search', '--env', '--prop', pid, '--seed', str(seed), '--random', str(nrand), '--budget', str(budget), '--out', out])
